@@ -508,9 +508,16 @@ class FrobEval:
                 return (Lin(c0.src, c0.conj, (-c0.k) % q), Lin(c1.src, c1.conj, (-c1.k) % q))
             if n == "frobenius_map" and "Fq4" in t[1].i:
                 pw = strip(a[1])
-                if pw[0] != "const":
+                if pw[0] == "agg" and isinstance(pw[1], str) and not pw[3] and pw[1] in self.F.adts:
+                    # a fieldless enum selector instead of an integer code: its discriminant index
+                    names = [v["name"] for v in self.F.adts[pw[1]]["variants"]]
+                    if pw[2] not in names:
+                        raise FactsError("Fq4::frobenius_map with an unknown selector")
+                    sub = self.fq4_arm(("variant", names.index(pw[2])))
+                elif pw[0] != "const" or "int" not in pw[1]:
                     raise FactsError("Fq4::frobenius_map with a non-literal power")
-                sub = self.fq4_arm(int(pw[1]["int"]))
+                else:
+                    sub = self.fq4_arm(int(pw[1]["int"]))
                 c0, c1 = self.fq4_of(body, a[0], inp4)
                 # compose: sub maps (A,B) -> (sub0 over A or B …): sub arms are diagonal (c0 from c0, c1 from c1)
                 def comp(s, v):
@@ -525,16 +532,20 @@ class FrobEval:
         b = self.F.body("crate::fields::fq4::Fq4::frobenius_map")
         tb = self.repo.tb(b)
         ev = paths.Evaluator({})
-        ev.intvals[("param", 2)] = power
-        res = paths.simulate(b, tb, ev)
+        choice = None
+        if isinstance(power, tuple) and power[0] == "variant":
+            choice = {("discr", ("param", 2)): power[1]}
+        else:
+            ev.intvals[("param", 2)] = power
+        res = paths.simulate(b, tb, ev, discr_choice=choice)
         if res.end != "return":
-            raise FactsError("Fq4::frobenius_map(%d) does not return (%s)" % (power, res.end))
+            raise FactsError("Fq4::frobenius_map(%s) does not return (%s)" % (power, res.end))
         v = paths.path_value(b, tb, res.blocks, 0)
         base = ("init", ("deref", 1))
         inp4 = {base: (Lin("A", False, 1), Lin("B", False, 1))}
         c0, c1 = self.fq4_of(b, v, inp4)
         if c0.src != "A" or c1.src != "B":
-            raise FactsError("Fq4::frobenius_map(%d) mixes components" % power)
+            raise FactsError("Fq4::frobenius_map(%s) mixes components" % (power,))
         return (c0, c1)
 
     def fq12_arm(self, power):
@@ -738,6 +749,13 @@ def rule_frob_dispatch(prop, repo):
                 R.instance()
                 pw = strip(tb.call_args(bb)[1])
                 ok = pw[0] == "const" and "int" in pw[1] and int(pw[1]["int"]) in impl[d]
+                if pw[0] == "agg" and isinstance(pw[1], str) and not pw[3] and pw[1] in F.adts:
+                    # an enum selector: every variant either has an arm or the match is exhaustive by construction (rustc
+                    # checked it); an arm that diverges shows up when the body is followed with that variant
+                    names = [v["name"] for v in F.adts[pw[1]]["variants"]]
+                    cb2 = F.bodies[d]
+                    res2 = paths.simulate(cb2, repo.tb(cb2), paths.Evaluator({}), discr_choice={("discr", ("param", 2)): names.index(pw[2])}) if pw[2] in names else None
+                    ok = res2 is not None and res2.end == "return"
                 R.check(ok, "%s:dispatch:%s→%s" % (prop, b.rec["path"], show(pw, maxdepth=2)), "%s calls %s with power %s, which has no implemented arm %s" % (b.rec["path"], d, show(pw, maxdepth=2), sorted(impl[d])),
                         loc_of(b, bb), b.rec["path"], sample={"caller": b.rec["path"], "power": show(pw, maxdepth=1)})
     return R.finish()
